@@ -62,6 +62,28 @@ def _state_changing(ctx, sn):
     return k in (DESTROY, CREATE, USER, UNKNOWN)
 
 
+def _on_api_receiver(sn):
+    """The call at ``sn`` is made on the object the public method was
+    called on: its receiver is the frame's ``self`` and every enclosing
+    inlined frame was entered through ``self`` as well (a fence evaluated on
+    a freshly created sub-builder says nothing about the caller's
+    builder)."""
+    def recv_is_self(call, func):
+        f = call.func
+        return isinstance(f, ast.Attribute) and isinstance(
+            f.value, ast.Name) and f.value.id == func.self_name
+    if sn.call is None or not recv_is_self(sn.call, sn.func):
+        return False
+    fr = sn.frame
+    while fr.parent is not None:
+        site = fr.site
+        if site is None or site.call is None or not recv_is_self(
+                site.call, site.func):
+            return False
+        fr = fr.parent
+    return True
+
+
 def r17_1(ctx, rc):
     R = ctx.R
     fence = R.builder + '.' + FENCE
@@ -72,8 +94,10 @@ def r17_1(ctx, rc):
         acts = [x for x in sg.nodes if _state_changing(ctx, x)]
         if not acts:
             raise AnalysisError('no state-changing action in ' + F.qualname)
-        w = Q.first_unguarded(sg, [sg.entry], lambda x: Q.is_done(x, fence),
-                              lambda x: _state_changing(ctx, x))
+        w = Q.first_unguarded(
+            sg, [sg.entry],
+            lambda x: Q.is_done(x, fence) and _on_api_receiver(x),
+            lambda x: _state_changing(ctx, x))
         n += 1
         key = 'fence in ' + F.qualname
         if w:
